@@ -1,8 +1,10 @@
 /- C06 — property theorems (only). -/
 import XsdataModel.Lex.Dates
+import XsdataModel.Lex.Period
+import XsdataModel.Proofs.Timeline
 
 namespace Props.C06
-open Py Xs.Dates
+open Py Xs.Dates Proofs.Timeline
 
 /-- `validateDate` accepts exactly the real calendar dates (month 1..12, day within the month). -/
 def realDate (y m d : Int) : Prop :=
@@ -75,5 +77,152 @@ theorem reject_unreal_datetime (e : Env) (s : Str) (v : XmlDateTime)
       exact ⟨validateDate_real _ _ _ hv.1, validateTime_real _ _ _ _ hv.2⟩
     · cases h
   · cases h
+
+
+/-- **reject_unreal (g\* periods)**: what `XmlPeriod` accepts has month 1..12 and a
+day that exists (in the given month of a leap year, or 1..31 without a month). -/
+theorem reject_unreal_period (e : Env) (s : Str) (p : TimePeriod)
+    (h : parsePeriod e s = some p) : realDate 0 (p.month.getD 1) (p.day.getD 1) := by
+  unfold parsePeriod at h
+  simp only at h
+  split at h
+  · cases h
+  · split at h
+    · rename_i hv
+      cases h
+      exact validateDate_real _ _ _ hv
+    · cases h
+
+/-! ### the comparison key agrees with the timeline
+
+`days_from_civil` is characterised independently of its closed form: it is 0 at
+the epoch 0000-03-01 and grows by exactly one from each real calendar day to the
+next one (month lengths and leap years from `monthlen`). -/
+
+theorem days_from_civil_epoch : daysFromCivil 0 3 1 = 0 := by decide
+
+theorem days_from_civil_succ (y m d : Int) (h : realDate y m d) :
+    daysFromCivil (nextDay y m d).1 (nextDay y m d).2.1 (nextDay y m d).2.2
+      = daysFromCivil y m d + 1 := by
+  obtain ⟨h1, h2, _, md, hm, hd⟩ := h
+  exact dfc_succ y m d h1 h2 md hm hd
+
+/-- the day number orders real dates exactly as the calendar does -/
+theorem days_from_civil_lt_iff (y m d y' m' d' : Int) (h : realDate y m d) (h' : realDate y' m' d') :
+    daysFromCivil y m d < daysFromCivil y' m' d' ↔ dateLt y m d y' m' d' := by
+  obtain ⟨h1, h2, h3, md, hm, hd⟩ := h
+  obtain ⟨h1', h2', h3', md', hm', hd'⟩ := h'
+  constructor
+  · intro hlt
+    by_cases hc : dateLt y m d y' m' d'
+    · exact hc
+    · exfalso
+      by_cases heq : y = y' ∧ m = m' ∧ d = d'
+      · obtain ⟨rfl, rfl, rfl⟩ := heq; omega
+      · have : dateLt y' m' d' y m d := by
+          unfold dateLt at hc ⊢; omega
+        have := dfc_lt_of_dateLt y' m' d' y m d h1' h2' md' hm' hd' h1 h2 h3 this
+        omega
+  · exact dfc_lt_of_dateLt y m d y' m' d' h1 h2 md hm hd h1' h2' h3'
+
+/-- 24:00:00 is the first instant of the next day -/
+theorem timeline_end_of_day (y m d : Int) (o : Option Int) (h : realDate y m d) :
+    XmlDateTime.timeline ⟨y, m, d, 24, 0, 0, 0, o⟩
+      = XmlDateTime.timeline ⟨(nextDay y m d).1, (nextDay y m d).2.1, (nextDay y m d).2.2, 0, 0, 0, 0, o⟩ := by
+  have := days_from_civil_succ y m d h
+  simp only [XmlDateTime.timeline, this]
+  omega
+
+/-- a value with offset `o` is the same instant as the UTC value `o` minutes earlier -/
+theorem timeline_offset (v : XmlDateTime) (o : Int) :
+    XmlDateTime.timeline { v with offset := some o }
+      = XmlDateTime.timeline { v with minute := v.minute - o, offset := some 0 } := by
+  simp only [XmlDateTime.timeline, Option.getD_some]
+  omega
+
+/-- time-of-day components in range (hour ≤ 23) -/
+def todOK (h mi s f : Int) : Prop :=
+  0 ≤ h ∧ h ≤ 23 ∧ 0 ≤ mi ∧ mi ≤ 59 ∧ 0 ≤ s ∧ s ≤ 59 ∧ 0 ≤ f ∧ f ≤ 999999999
+
+/-- lexicographic order on (date, hour, minute, second, fraction) -/
+def dtLt (a b : XmlDateTime) : Prop :=
+  dateLt a.year a.month a.day b.year b.month b.day ∨
+  (a.year = b.year ∧ a.month = b.month ∧ a.day = b.day ∧
+    (a.hour < b.hour ∨ (a.hour = b.hour ∧ (a.minute < b.minute ∨ (a.minute = b.minute ∧
+      (a.second < b.second ∨ (a.second = b.second ∧ a.frac < b.frac)))))))
+
+/-- **cmp_timeline (dateTime)**: for real values in the same timezone the key
+orders exactly as calendar + clock order; with `timeline_offset` and
+`timeline_end_of_day` this extends to all offsets and to 24:00:00. -/
+theorem datetime_key_lt_iff (a b : XmlDateTime)
+    (ha : realDate a.year a.month a.day) (hb : realDate b.year b.month b.day)
+    (hta : todOK a.hour a.minute a.second a.frac) (htb : todOK b.hour b.minute b.second b.frac)
+    (ho : a.offset.getD 0 = b.offset.getD 0) :
+    a.timeline < b.timeline ↔ dtLt a b := by
+  have key := days_from_civil_lt_iff a.year a.month a.day b.year b.month b.day ha hb
+  have key' := days_from_civil_lt_iff b.year b.month b.day a.year a.month a.day hb ha
+  unfold todOK at hta htb
+  simp only [XmlDateTime.timeline, dtLt, ho]
+  generalize hA : daysFromCivil a.year a.month a.day = A at *
+  generalize hB : daysFromCivil b.year b.month b.day = B at *
+  by_cases hlt : A < B
+  · have := key.mp hlt
+    constructor
+    · intro _; exact Or.inl this
+    · intro _; omega
+  · by_cases hgt : B < A
+    · have hd := key'.mp hgt
+      constructor
+      · intro h; exfalso; omega
+      · intro h
+        exfalso
+        rcases h with h | h
+        · exact hlt (key.mpr h)
+        · unfold dateLt at hd; omega
+    · have hAB : A = B := by omega
+      have hnd : ¬ dateLt a.year a.month a.day b.year b.month b.day := fun h => hlt (key.mpr h)
+      have hnd' : ¬ dateLt b.year b.month b.day a.year a.month a.day := fun h => hgt (key'.mpr h)
+      have hsame : a.year = b.year ∧ a.month = b.month ∧ a.day = b.day := by
+        unfold dateLt at hnd hnd'; omega
+      subst hAB
+      constructor
+      · intro h; right; refine ⟨hsame.1, hsame.2.1, hsame.2.2, ?_⟩; omega
+      · intro h
+        rcases h with h | h
+        · exact absurd h hnd
+        · omega
+
+/-- **cmp_timeline (time)**: same statement for `XmlTime`. -/
+theorem time_key_lt_iff (a b : XmlTime)
+    (hta : todOK a.hour a.minute a.second a.frac) (htb : todOK b.hour b.minute b.second b.frac)
+    (ho : a.offset.getD 0 = b.offset.getD 0) :
+    a.timeline < b.timeline ↔
+      (a.hour < b.hour ∨ (a.hour = b.hour ∧ (a.minute < b.minute ∨ (a.minute = b.minute ∧
+        (a.second < b.second ∨ (a.second = b.second ∧ a.frac < b.frac)))))) := by
+  unfold todOK at hta htb
+  simp only [XmlTime.timeline, ho]
+  omega
+
+/-- equal keys of real same-offset values mean equal values (no two distinct
+instants are identified, unlike the former float `duration`) -/
+theorem datetime_key_inj (a b : XmlDateTime)
+    (ha : realDate a.year a.month a.day) (hb : realDate b.year b.month b.day)
+    (hta : todOK a.hour a.minute a.second a.frac) (htb : todOK b.hour b.minute b.second b.frac)
+    (ho : a.offset = b.offset) (hk : a.timeline = b.timeline) : a = b := by
+  have ho' : a.offset.getD 0 = b.offset.getD 0 := by rw [ho]
+  have h1 := datetime_key_lt_iff a b ha hb hta htb ho'
+  have h2 := datetime_key_lt_iff b a hb ha htb hta ho'.symm
+  have n1 : ¬ dtLt a b := fun h => by have := h1.mpr h; omega
+  have n2 : ¬ dtLt b a := fun h => by have := h2.mpr h; omega
+  unfold dtLt dateLt at n1 n2
+  obtain ⟨ay, am, ad, ah, ami, as, af, ao⟩ := a
+  obtain ⟨bY, bm, bd, bh, bmi, bs, bf, bo⟩ := b
+  simp only at n1 n2 ho
+  simp only [XmlDateTime.mk.injEq]
+  refine ⟨by omega, by omega, by omega, by omega, by omega, by omega, by omega, ho⟩
+
+example : realDate 2024 2 29 ∧ (nextDay 2024 2 29 = (2024, 3, 1)) := by
+  refine ⟨⟨by decide, by decide, by decide, 29, by decide, by decide⟩, by decide⟩
+example : todOK 23 59 59 999999999 := by unfold todOK; omega
 
 end Props.C06
